@@ -231,6 +231,19 @@ def aggregate(prop, tier, seed, contracts, results, split_errors, known, t_start
     for name, err in split_errors.items():
         per[name]['errors'].append(err)
 
+    # queries both back ends left open during the parallel phase get a second, undisturbed run with three times the budget
+    # (verdicts must not flip because 16 workers were competing for the cores)
+    from pyvc import smt as _smt
+    retried = {}
+    for ci in contracts:
+        for it in per[ci.name]['items']:
+            if it['verdict'] == 'unknown' and it.get('smt') and os.path.exists(it['smt']):
+                if it['smt'] not in retried:
+                    retried[it['smt']] = _smt.retry_file(it['smt'], 30.0 if tier == 'quick' else 120.0)
+                v, backend, model, by = retried[it['smt']]
+                if v != 'unknown':
+                    it['verdict'], it['backend'], it['by_backend'] = v, backend, dict(by, retried=True)
+                    it['model'] = {k: x for k, x in model.items()}
     obligations = discharged = 0
     by_backend = {'z3': 0, 'cvc5': 0}
     solver_time = 0.0
@@ -269,7 +282,10 @@ def aggregate(prop, tier, seed, contracts, results, split_errors, known, t_start
             unproved.append({'contract': ci.name, 'function': ci.target or ci.const or ci.name, 'reason': p['unsupported'][:3]})
         if len(uniq) == 0 and not p['errors']:
             crashes.append((ci.name, 'zero obligations generated (vacuity guard)'))
-        functions.append({'contract': ci.name, 'target': ci.target or ci.const or '(lemma)', 'kind': ci.kind, 'paths': p['paths'],
+        form = ('loop-step' if getattr(ci.pycls, 'step', None) else 'cut-point' if getattr(ci.pycls, 'cut', None)
+                else 'history-lemma' if (ci.kind == 'lemma' and getattr(ci.pycls, 'inline', None)) else ci.kind)
+        functions.append({'contract': ci.name, 'target': ci.target or ci.const or '(lemma)', 'kind': ci.kind, 'form': form,
+                          'loop': getattr(ci.pycls, 'step', None) or getattr(ci.pycls, 'cut', None), 'paths': p['paths'],
                           'obligations': len(uniq), 'discharged': n_ok, 'inlined': sorted(p['inlined']),
                           'callee_contracts_used': sorted(p['uses']), 'source_hash': p['source_hash']})
         for it in list(uniq.values())[:2]:
@@ -386,6 +402,9 @@ def aggregate(prop, tier, seed, contracts, results, split_errors, known, t_start
         ci = REGISTRY[u['contract']]
         n = 2000 if tier == 'quick' else 20000
         ran, hit = verify.bounded_standin(ci, n, rng)
+        if hit is not None and 'harness_error' in hit:
+            crashes.append((ci.name, 'the bounded stand-in cannot run: ' + hit['harness_error']))
+            continue
         bounded.append({'contract': ci.name, 'function': ci.target or ci.const or ci.name, 'bound': f'{n} random inputs from the contract input builder (sequence lengths <= 4, integers in [-6, 6])', 'cases': ran,
                         'failed': bool(hit)})
         if hit is not None:
